@@ -12,7 +12,10 @@ vars == <<par, done>>
 \* twice, the second time after the clock moved, so that whatever was stored is used again
 Semantic == {"age_max", "age_over", "age_neg", "age_max_nodate", "date_future", "date_1970", "date_garbage", "expires_nodate", "expires_garbage",
              "lm_future", "maxage_over", "smaxage_neg", "cl_zero_body", "vary_long", "etag_long", "many_fields", "status_999", "status_100_only"}
-Init == par \in [side : {"client", "origin"}, stage : Stages, cls : Classes] \cup [side : {"origin"}, stage : {"semantic"}, cls : Semantic] /\ done = FALSE
+\* volume: well-formed but large bodies against a peer that reads late behind a small window, so that every buffer on the way fills to the brim
+Volume == {"chunked_8k_chunks", "chunked_odd_chunks", "chunked_random_chunks", "length_body", "chunked_one_byte_chunks"}
+Init == par \in [side : {"client", "origin"}, stage : Stages, cls : Classes] \cup [side : {"origin"}, stage : {"semantic"}, cls : Semantic]
+               \cup [side : {"client"}, stage : {"volume"}, cls : Volume] /\ done = FALSE
         /\ (par.side = "client" => par.stage \notin {"statusline", "statuscode", "reason"})
         /\ (par.side = "origin" => par.stage \notin {"method", "sp1", "target", "sp2"})
 Next == ~done /\ done' = TRUE /\ UNCHANGED par
